@@ -383,6 +383,23 @@ def inverse_law(run, mods, p, desc, r, n):
                 run.violation("inverse:single-g-batch", "uncompute_g_vectors on a batch of one g gives %r, in a batch of %d "
                               "the same g gave %r" % (got1.tolist(), g.shape[1], ref1.tolist()),
                               dict(desc, pars=p, g=g[:, j].tolist()))
+        # batches of two, three and four g-vectors: the (3,n) layout is the documented one, so a (3,3) batch is three
+        # g-vectors in columns, not rows; each column must get the answer it got in the big batch
+        for k in (2, 3, 4):
+            if g.shape[1] < k + 1:
+                continue
+            sel = r.choice(g.shape[1], k, replace=False)
+            gk = np.ascontiguousarray(g[:, sel])
+            with np.errstate(invalid="ignore"):
+                tk, (eka, ekb), (oka, okb) = transform.uncompute_g_vectors(gk, lam, wedge=wedge, chi=chi)
+            run.count("inverse_small_batches")
+            gotk = np.array([tk, eka, ekb, oka, okb])
+            refk = np.array([tth[sel], eta1[sel], eta2[sel], om1[sel], om2[sel]])
+            if gotk.shape != refk.shape or not np.all((np.abs(gotk - refk) <= 1e-9 * (1 + np.abs(refk))) |
+                                                      (np.isnan(gotk) & np.isnan(refk))):
+                run.violation("inverse:small-batch", "uncompute_g_vectors on a (3,%d) batch gives %r, in a batch of %d the "
+                              "same g-vectors gave %r" % (k, gotk.tolist(), g.shape[1], refk.tolist()),
+                              dict(desc, pars=p, g=gk.tolist()))
         t0, (e0a, e0b), (o0a, o0b) = transform.uncompute_g_vectors(np.zeros((3, 0)), lam, wedge=wedge, chi=chi)
         run.count("inverse_empty_batches")
         if any(np.shape(v) != (0,) for v in (t0, e0a, e0b, o0a, o0b)):
